@@ -9,6 +9,10 @@
  * fails an obligation (bounds of the 1-byte cell / requires). */
 #include <stddef.h>
 int g_bs;
+/* frame of the backend operation (interface contract: "assigns only the buffers of missing indexes"): the harness publishes
+ * its cell array and the set of missing indexes; every kernel write must land in a missing cell or in the code's own scratch */
+char *g_cells; int g_ncells; unsigned g_wmask;
+#define WRITABLE(p) (!__CPROVER_same_object((p), g_cells) || ((g_wmask >> (unsigned)((char *)(p) - g_cells)) & 1u))
 /* a buffer is one cell: either an element of the harness's cell array or a 1-byte scratch object */
 #define IS_BASE(p) (__CPROVER_rw_ok(p, 1))
 void xor_bufs_and_store(char *buf1, char *buf2, int blocksize)
@@ -16,6 +20,7 @@ void xor_bufs_and_store(char *buf1, char *buf2, int blocksize)
   __CPROVER_assert(blocksize == g_bs, "xor_bufs_and_store.requires: length == blocksize of the stripe");
   __CPROVER_assert(IS_BASE(buf1) && IS_BASE(buf2), "xor_bufs_and_store.requires: both arguments are whole buffers of blocksize bytes");
   __CPROVER_assert(buf1 != buf2, "xor_bufs_and_store.requires: distinct buffers");
+  __CPROVER_assert(WRITABLE(buf2), "C15: the code writes only into buffers of missing fragments or its own scratch (never into a supplied fragment, not even transiently)");
   *buf2 = (char)(*buf2 ^ *buf1);
 }
 void fast_memcpy(char *dst, char *src, int size)
@@ -23,12 +28,14 @@ void fast_memcpy(char *dst, char *src, int size)
   __CPROVER_assert(size == g_bs, "fast_memcpy.requires: length == blocksize of the stripe");
   __CPROVER_assert(IS_BASE(dst) && IS_BASE(src), "fast_memcpy.requires: both arguments are whole buffers of blocksize bytes");
   __CPROVER_assert(dst != src, "fast_memcpy.requires: distinct buffers");
+  __CPROVER_assert(WRITABLE(dst), "C15: the code writes only into buffers of missing fragments or its own scratch (never into a supplied fragment, not even transiently)");
   *dst = *src;
 }
 void *memset(void *s, int c, size_t n)
 {
   __CPROVER_assert(n == (size_t)g_bs, "memset.requires: length == blocksize of the stripe");
   __CPROVER_assert(IS_BASE(s), "memset.requires: a whole buffer of blocksize bytes");
+  __CPROVER_assert(WRITABLE(s), "C15: the code writes only into buffers of missing fragments or its own scratch (never into a supplied fragment, not even transiently)");
   *(char *)s = (char)c;
   return s;
 }
